@@ -24,6 +24,10 @@ type PlanC06 struct {
 	EndAtMs   int       `json:"end_at_ms"`   // when the end is triggered
 	StepGapMs int       `json:"step_gap_ms"` // pause between handshake steps of the scripted peer
 	Faults    FaultSpec `json:"faults"`
+	// InjectAtTLS (server role, tcp): the scripted client chooses TLS and puts a data envelope in
+	// front of its TLS hello, in the same segment: the last place before establishment where a
+	// non-session envelope can arrive in cleartext
+	InjectAtTLS bool `json:"inject_at_tls,omitempty"`
 }
 
 func genC06(t *simrt.Tape, tier string) interface{} {
@@ -62,6 +66,18 @@ func genC06(t *simrt.Tape, tier string) interface{} {
 	if p.Conf.Transport != "inproc" && t.Draw(3) == 0 {
 		p.Faults = benignFaults(t, 800)
 		p.Faults.Capacity = 0
+	}
+	if t.Draw(8) == 0 {
+		p.Role = "server"
+		p.InjectAtTLS = true
+		p.Conf.Transport = "tcp"
+		p.Conf.TLSCap = true
+		p.Conf.Enc = [][]string{{"tls"}, {"tls", "none"}}[t.Draw(2)]
+		p.Conf.Comp = []string{"none"}
+		p.Conf.AuthOut = []int{0}
+		p.Script = []Step{{Op: "auto"}, {Op: "auto"}, {Op: "auto"}, {Op: "auto", Choice: 1}, {Op: "auto", Choice: 1}}
+		p.Faults = NoFaults()
+		return p
 	}
 	if t.Draw(4) == 0 {
 		// senders queued on the send mutex at the instant the endpoint ends the session itself:
@@ -149,6 +165,9 @@ func runC06(w *World, pi interface{}) {
 			return
 		}
 		sut.Peers = []*RawPeer{peer}
+		if p.InjectAtTLS {
+			peer.HelloDelim = "\n" + `{"id":"d-tls","type":"text/plain","content":"in front of the hello"}` + "\n"
+		}
 		if !w.Eventually(30*time.Second, func() bool { return len(sut.Chans) > 0 }) {
 			return
 		}
@@ -488,7 +507,9 @@ func init() {
 		MaxSim: 2 * time.Hour,
 		Rule: "plans = (role: real ServerChannel vs scripted client over tcp/ws/in-process, or real ClientChannel vs scripted server over tcp; 1-3 application tasks that keep calling the four send operations from before the handshake until after the end, with gaps; " +
 			"handshake paced by a step gap, optional round trip / rejection / data envelopes injected into the handshake / one deviating server answer; the end: local FinishSession/FailSession, peer-initiated (finishing request / finished / failed), or none, at a chosen instant; benign link faults); " +
+			"templates: several back-to-back senders against a peer that takes envelopes slowly at the instant of the local end, or of a peer-initiated end that keeps the connection open; a peer that breaks off in the middle of an envelope; " +
 			"oracle: a send whose whole call lay outside the established state fails and emits nothing, data frames on the wire only between the established and the endpoint's terminal session envelope, no garbled frame, injected data aborts the handshake and is never delivered; " +
+			"no data envelope is handed to the connection at a later instant than the one at which the channel itself reported the end (write-call entry times from the simulated socket); " +
 			"non-trivial = the endpoints connected; distinct = distinct (plan JSON, event-log hash)",
 	})
 }
